@@ -24,7 +24,7 @@ import xarray as xr
 
 from harness import core
 
-GEN = ["gen_constants"]
+GEN = ["gen_constants", "gen_block_loops"]
 EXTRACT_FILES = ["X03"]
 DRIVERS = ["x03"]
 RULE = ("synthetic cost volumes: shape from {1,2,99,100,101,199,200,201,250} x {1,3,101} (either orientation) x 2-5 "
@@ -44,7 +44,8 @@ ASSUMES = [
     "hypothesis cv_masked_outside_is_nan of C03_wta_within_pixel_interval",
     "float32 storage of the disparity coordinate: sampled disparities are multiples of 1/4 (exact)",
 ]
-TRUSTED = ["Gen/Constants.v produced by translator/gen_constants.py (ast pattern np.array_split(x, np.arange(B, n, B), axis))"]
+TRUSTED = ["Gen/Constants.v produced by translator/gen_constants.py (ast pattern np.array_split(x, np.arange(B, n, B), axis))",
+           "Gen/BlockLoops.v produced by translator/gen_block_loops.py (ast transliteration of the double block loop: split expressions, statements on the running offsets where they stand, slice bounds, arrays resolved to np.zeros / np.full_like / np.copy / sliding_window view / parameter expression; fail closed) and its reading as a program by Lib/BlockSkeleton.v exec (total arrays, slice writes neither clamped nor shape-checked)"]
 
 BIG = [1, 2, 99, 100, 101, 199, 200, 201, 250]
 SMALL = [1, 3, 101]
@@ -425,4 +426,8 @@ def run(ctx):
             if not p["inf"] and (rng.random() < (0.5 if quick else 0.3)):
                 crop_check(ctx, p, arrs, out, rng)
     ctx.gen_obligations = ["1 <= Gen.Constants.wta_argmin_block /\\ 1 <= Gen.Constants.wta_argmax_block (vm_compute; the "
-                           "theorems are instantiated at these constants in Props/C03.v)"]
+                           "theorems are instantiated at these constants in Props/C03.v)",
+                           "skeleton_wf Gen.BlockLoops.argmin_split = true /\\ skeleton_wf Gen.BlockLoops.argmax_split = true /\\ "
+                           "wta_skeleton_ok false/true (offsets from 0, np.zeros output, arg-min/arg-max of the inner chunk) /\\ "
+                           "sk_B = Gen.Constants.wta_argmin_block / wta_argmax_block (C03_block_loop_skeleton, vm_compute on the "
+                           "skeleton translator/gen_block_loops.py reads in disparity.py with ast; fail closed)"]
